@@ -619,3 +619,94 @@ def assigned_local_rule(F, R, rid):
                "the translator's SETLOCAL arm does not remove the assigned local from FunctionTranslator.%s: a fact about the "
                "old value (non-empty list, int) is applied to the new one, and an unchecked / type-specialised handler is "
                "emitted for it" % t, tr.loc(), sample=True)
+
+
+def _error_kinds(F, fnname, depth, seen=None):
+    """ErrorKind variants constructed by a function, the closures it builds and its steel_vm callees (≤ depth levels)"""
+    seen = seen if seen is not None else set()
+    out = set()
+    if fnname in seen or fnname not in F.fns:
+        return out
+    seen.add(fnname)
+    fn = F.fns[fnname]
+    for _, e in lib.family_events(F, fn, "kv"):
+        if e[2].startswith("variant:ErrorKind::"):
+            out.add(e[2].split("::")[-1])
+    if depth > 0:
+        for c in F.callees(fn, expand_unresolved=False):
+            if c.startswith("steel::steel_vm::"):
+                out |= _error_kinds(F, c, depth - 1, seen)
+    return out
+
+
+def tier_error_agreement_rule(F, R, rid):
+    R.rule(rid, "the native tier raises what the interpreter raises for the same instruction: for every opcode whose "
+                "interpreter arm itself (its own blocks in VmCore::vm, up to the next dispatch) constructs an error of kind K "
+                "— an arity, type or syntax error decided right there, not inside a shared callee — and whose translator arm "
+                "(FunctionTranslator::stack_to_ssa, with the translator methods it calls, two levels) emits registered runtime "
+                "helpers, some of those helpers (with their steel_vm callees, three levels) constructs kind K as well. A "
+                "helper that lost the check lets compiled code carry on where the interpreter stops with an error "
+                "(sibling agreement; opcodes without a resolvable helper are not judged)")
+    reg = registry(F)
+    vm = F.one(r"^steel::steel_vm::vm::\{impl VmCore(<'a>)?\}::vm$")
+    sws = lib.enum_switches(vm, "OpCode")
+    if not sws:
+        raise CheckError("anchor lost: VmCore::vm no longer dispatches on OpCode")
+    sb = max(sws, key=lambda b: len(vm.blocks[b]["targets"]))
+    am = lib.arm_map(vm, sb)
+    dom = vm.dominators()
+    heads = set(t for u in vm.normal_blocks() for t in vm.succ(u) if t in dom.get(u, ()))
+    tg = set(am.values())
+    inline = {}
+    for v, t in am.items():
+        if v == "_":
+            continue
+        ks = set()
+        for i in vm.reachable_from([t], avoid=heads | {sb} | (tg - {t})):
+            for e in vm.blocks[i]["e"]:
+                if e[0] == "kv" and e[2].startswith("variant:ErrorKind::"):
+                    ks.add(e[2].split("::")[-1])
+        if ks:
+            inline[v] = ks
+    tr = F.one(r"jit2::cgen::\{impl FunctionTranslator\}::stack_to_ssa$")
+    sws2 = lib.enum_switches(tr, "OpCode")
+    if not sws2:
+        raise CheckError("anchor lost: FunctionTranslator::stack_to_ssa no longer dispatches on OpCode")
+    sb2 = max(sws2, key=lambda b: len(tr.blocks[b]["targets"]))
+    am2 = lib.arm_map(tr, sb2)
+    tg2 = set(am2.values())
+    tables = F.find(r"^steel::jit2::cgen::op_to_name_payload$")
+    skip = re.compile(r"::(stack_to_ssa|call_function_returns_value\w*|check_deopt\w*|_check_deopt\w*)$")
+    judged = 0
+    for v, ks in sorted(inline.items()):
+        t = am2.get(v)
+        names = set()
+        for tb in tables:
+            names |= _table_names(F, tb.name, {v}, reg)
+        if t is not None and t != am2.get("_"):
+            for i in tr.reachable_from([t], avoid={sb2} | (tg2 - {t})):
+                b = tr.blocks[i]
+                for e in b["e"]:
+                    if e[0] == "kv" and e[2].startswith("str:") and e[2][4:] in reg:
+                        names.add(e[2][4:])
+                if b["k"] == "call" and "FunctionTranslator" in b["callee"] and b["callee"] in F.fns and not skip.search(b["callee"]):
+                    names |= _names_in_body(F, b["callee"], reg)
+                    for _, b2 in F.fns[b["callee"]].calls():
+                        if "FunctionTranslator" in b2["callee"] and b2["callee"] in F.fns and not skip.search(b2["callee"]):
+                            names |= _names_in_body(F, b2["callee"], reg)
+        if not names:
+            R.inst(rid, "%s / no registered helper resolved for this opcode (not judged)" % v, True, nontrivial=False)
+            continue
+        judged += 1
+        jk = set()
+        for n in names:
+            jk |= _error_kinds(F, reg[n], 3)
+        missing = sorted(ks - jk)
+        R.inst(rid, "%s / helpers %s can raise %s like the interpreter arm" % (v, "/".join(sorted(names)[:3]), "/".join(sorted(ks))),
+               not missing,
+               "the interpreter's %s arm raises %s itself, but none of the runtime helpers the translator emits for %s (%s) "
+               "constructs that error: with the JIT on the instruction goes on where the interpreter reports an error "
+               "(e.g. a self tail call with the wrong number of arguments re-enters the frame with a misaligned stack)" % (
+                   v, "/".join(missing), v, ", ".join(sorted(names))),
+               F.fns[reg[sorted(names)[0]]].loc() if reg[sorted(names)[0]] in F.fns else tr.loc(), sample=True)
+    R.floor(rid, "opcodes with an inline interpreter check and a resolvable native helper", judged, 3)
